@@ -19,6 +19,7 @@ func runC05(c *Ctx) {
 	borrow(c, "O8", "C06", "O10", "cache", "a victim wrongly reported as protected is never displaced")
 	borrow(c, "O11", "C14", "O1", "addTaskIndex <-> deleteTaskIndex", "the victim filters drop a workload whose cached active-allocated count is 0: a count that drifts after an undone simulation hides a legal victim from the later actions of the cycle")
 	borrow(c, "O12", "C08", "O6", "given to the queue is in bytes", "a limit enforced a million times too low refuses every workload of the queue although capacity is free")
+	borrow(c, "O14", "C08", "O13", "usage is accumulated for the allocated statuses", "a queue that is charged with its terminating pods looks fuller than it is: workloads that fit within its limit are refused and reclaimers within quota are turned away")
 	borrow(c, "O9", "C01", "O7", "BindPod failure -> unallocate", "resources of a pod whose bind failed stay consumed in the session and a later job that fits is left pending")
 	p, fx := c.P, c.Fx
 	// ---- O10: the pod-slot predicate counts the slots of terminating pods as available (nominations go there)
